@@ -60,7 +60,7 @@ def vector(sc, resp):
     exp = [[view(r) for r in recs if r["sec"] == s] for s in (0, 1, 2)]
     if sc["_opt"]:   # the server echoes an OPT record of its own before the callback's additional records
         exp[2].insert(0, {"n": [], "t": dc.T_OPT, "c": 512, "ttl": 0, "rd": [], "rdn": []})
-    return {"kind": "encode", "b": list(bytes.fromhex(resp)), "limit": sc["_limit"],
+    return {"kind": "encode", "b": list(bytes.fromhex(resp)), "limit": sc["_limit"], "boundary": 1 if sc.get("_boundary") else 0,
             "qs": [{"n": dc.labels(n), "t": t, "c": 1} for n, t in sc["_q"]], "exp": exp}
 
 
@@ -70,6 +70,36 @@ def plain_size(sc):
         n += len(dc.plain_name(dc.labels(r["name"]))) + 10
         n += len(dc.plain_name(dc.labels(r["data"]))) if r["isname"] else len(r["data"]) // 2
     return n
+
+
+def boundary_family():
+    """Responses whose encoded length is limit-1 / limit / limit+1 for every limit the server honours over UDP.  The names share no
+    suffix (question ab.cd, owners n0, n1, ...), so nothing can be compressed and the encoded length is exactly the plain length
+    (DnsMsg!Incompressible / BoundaryOK): TC and a cut iff the length exceeds the limit."""
+    out = []
+    for opt in (None, 1232, 4096):
+        limit = max(512, opt or 0)
+        for delta in (-1, 0, 1):
+            for shape in ("txt", "name"):
+                target = limit + delta
+                recs, i = [], 0
+                sc = scenario([("ab.cd", 16)], recs, "udp", opt)
+                while target - plain_size(sc) > 330:
+                    recs.append(rec(0, "n%d" % i, dc.T_TXT, 5, data=b"p" * 200)); i += 1
+                if shape == "txt":           # one last raw record sized to hit the target exactly
+                    recs.append(rec(0, "n%d" % i, dc.T_TXT, 5, data=b""))
+                    recs[-1] = rec(0, "n%d" % i, dc.T_TXT, 5, data=b"q" * (target - plain_size(sc)))
+                else:                        # an A record, and a last owner name whose length pads to the target
+                    recs.append(rec(0, "m%d" % i, dc.T_A, 5, data=b"\1\2\3\4"))
+                    recs.append(rec(2, "k", dc.T_TXT, 5, data=b""))
+                    missing = target - plain_size(sc)
+                    lab = min(63, max(1, missing - 60))
+                    recs[-1] = rec(2, "k" * lab, dc.T_TXT, 5, data=b"")
+                    recs[-1] = rec(2, "k" * lab, dc.T_TXT, 5, data=b"r" * (target - plain_size(sc)))
+                assert plain_size(sc) == target, (plain_size(sc), target)
+                sc["_boundary"] = True
+                out.append(sc)
+    return out
 
 
 def build_corpus(rng, n_general, n_trunc):
@@ -113,6 +143,9 @@ def run(tier, seed):
     dc.gen_messages(chk, "C35_ref", {"Mode": "request", "FlagIdx": {1} if q else range(1, 4), "QIdx": range(1, 12), "RRIdx": range(1, 4),
                                      "ArIdx": range(1, 6), "CntIdx": {1, 2}, "CutSet": {0, 1}, "MaxAn": 1})
     general, trunc, big = build_corpus(rng, 120 if q else 1200, 25 if q else 150)
+    bnd = boundary_family()
+    trunc += bnd                      # judged in the same TLC run; only the limit+1 members may hit the truncation finding
+    chk.cov["boundary_family"] = [[s["_limit"], plain_size(s)] for s in bnd]
     groups = [("general", general, None), ("truncated", trunc, KEY_TRUNC), ("beyond16k", big, KEY_PTR16K)]
     for gname, scen, key in groups:
         outs = vkit.run_driver(exe, [{k: v for k, v in s.items() if not k.startswith("_")} for s in scen], timeout=900)
@@ -144,7 +177,9 @@ def run(tier, seed):
                        "0..40000 bytes, names sharing and not sharing suffixes, >128 distinct labels, sizes aimed just below / above each "
                        "limit); the bytes received are judged by TLC with DnsMsg!EncodeOK: decodes under the reference decoder into the "
                        "questions and exactly the added records in order, every pointer targets an earlier label of an earlier name, "
-                       "TC only when the message cannot fit, counts never announce absent records.  non-trivial = at least one record.")
+                       "TC only when the message cannot fit, counts never announce absent records.  A directed boundary family (names sharing no "
+                       "suffix, so the encoded length is exactly computable: DnsMsg!BoundaryOK) has encoded length limit-1 / limit / limit+1 for "
+                       "512 / 1232 / 4096: TC iff the length exceeds the limit.  non-trivial = at least one record.")
     chk.assumptions += ["the record lists are drawn by a seeded Python grammar (coverage device); the verdict on every response is TLC's",
                         "names handed to the server API are valid (labels 1..63 bytes, no empty labels)",
                         "over UDP the reply limit is max(512, OPT payload size of the request); the server's own OPT record (class 512) "
